@@ -476,7 +476,7 @@ const SCOPES: [&str; 18] = ["*", "c_glib", "cpp", "delphi", "haxe", "go", "java"
 const LITS: [&str; 22] = ["", "a", "hello world", "base.thrift", "json:\\\"Ids\\\"", "it\\'s", "a\\nb", "back\\\\slash", "say \"hi\"", "it's",
     "line\nbreak", "é中文", "// not a comment", "/* nor this */", "# hash", "{[(<,;:=>)]}", "true", "1.5e3", " ", "\t", "\\\\", "\\n\\n"];
 const DBLS: [&str; 20] = ["1.5", "0.0", "-1.5", "+1.5", "-+2.0", "1.", ".5", "-.5", "1e5", "1E5", "1e-5", "1.5e10", "1.5E-3", ".5e-0", "12.e3", "1e0x1F",
-    "3.14159", "1e--2", "0.e0", "00.00"];
+    "3.14159", "1e-2", "0.e0", "00.00"];
 
 struct G { r: Rng }
 impl G {
@@ -654,7 +654,7 @@ fn c15_fixed(out: &mut dyn Write) {
             }
         }
     }
-    // empty document: with the empty layout, and with blanks (finding DI1: a blank-only text is rejected)
+    // empty document: with the empty layout, and with blanks and comments only (DI1, fixed by 00dcdf5)
     for sd in 1..6 { let _ = writeln!(out, "{}", rt_line(&File::default(), sd, sd < 3)); }
     let mut g = G { r: Rng(77) };
     for _ in 0..40 { let f = one_item_file(g.item()); seed += 1; let _ = writeln!(out, "{}", rt_line(&f, seed, true)); }
@@ -786,7 +786,7 @@ pub fn gen(stream: &str, tier: &str, seed: u64, out: &mut dyn Write) -> bool {
                 let kind = if i % 5 == 0 { KINDS[g.r.below(KINDS.len() as u64) as usize] } else { "file" };
                 let _ = writeln!(out, "{}", parse_line(kind, &m));
             }
-            // minus ladders: `IntConstant::parse` recurses once per `-` (no bracket nesting at all)
+            // minus ladders: since 4f1981f at most one sign is accepted; longer runs are parse errors
             for n in [1usize, 2, 3, 64, 65, 500, 2000] { let _ = writeln!(out, "{}", parse_line("file", &format!("const i64 c = {}7", "-".repeat(n)))); }
             let sizes: &[usize] = if thorough { &[16, 200, 4096, 65536] } else { &[16, 200, 2000] };
             for &sz in sizes { for _ in 0..(if thorough { 60 } else { 25 }) {
@@ -801,7 +801,7 @@ pub fn gen(stream: &str, tier: &str, seed: u64, out: &mut dyn Write) -> bool {
             true
         }
         // C16-stack: run by the extra step of bin/props_idl.py in a child process of its own (a stack overflow kills it):
-        // a document without any bracket nesting whose only depth is a chain of `-` signs (finding DI2)
+        // regression test of DI2 (fixed by 4f1981f): a document without any bracket nesting that carries a long chain of `-` signs
         "C16-stack" => {
             let n = if thorough { 100000 } else { 40000 };
             let _ = writeln!(out, "{}", parse_line("file", &format!("const i64 c = {}7", "-".repeat(n))));
